@@ -111,6 +111,10 @@ mut('c01-second-process-caller', 'C01', ['C01.6'], S,
     'a second caller of _execute_handlers bypasses process_event')
 
 # ================================================================================================ neutral variants
+neutral('n-inline-finally-as-catch-all', M,
+    "                                    finally:\n                                        # always balance the get_nowait(), also when we are cancelled mid-processing,\n                                        # otherwise bus.event_queue.join() / wait_until_idle() would hang forever\n                                        bus.event_queue.task_done()\n",
+    "                                    except BaseException:\n                                        bus.event_queue.task_done()\n                                        raise\n                                    bus.event_queue.task_done()\n",
+    'try/finally of the inline loop written as a catch-all clean-up arm with a bare re-raise (twin of C15-r11-1)')
 neutral('n-rename-local', S,
         "        from_queue = False\n", "        from_queue = False  # tracked below\n",
         'comment only')
@@ -213,6 +217,10 @@ mut('c03-await-raises-error', 'C03', ['C03.2'], M,
     "            # Return the completed event without raising errors\n",
     "            for result in self.event_results.values():\n                if result.error:\n                    raise result.error\n            # Return the completed event without raising errors\n",
     'await raises the first handler error')
+mut('c03-await-reraises-queueempty', 'C03', ['C03.2'], M,
+    "                            except asyncio.QueueEmpty:\n                                pass\n",
+    "                            except asyncio.QueueEmpty:\n                                raise\n",
+    'the arm that swallowed QueueEmpty re-raises it: awaiting a child from a handler raises whenever a bus queue is empty (a bare raise in an arm naming a specific class stays judged)')
 mut('c03-await-returns-copy', 'C03', ['C03.2'], M,
     "            # Errors should only be raised when explicitly requested via event_result() methods\n            return self\n",
     "            # Errors should only be raised when explicitly requested via event_result() methods\n            return self.model_copy()\n",
